@@ -43,40 +43,51 @@ fn compare_transports(text: &str) {
         round += 1;
     }
     assert!(round < 6);
-    kani::cover!(round >= 2, "script with at least two commands");
+    kani::cover!(round >= 1, "script with at least one command");
     core::mem::forget(arg);
     core::mem::forget(sin);
 }
 
 /// The same script read through `--command` (Argument) and through stdin (Stdin, byte source stubbed): the
-/// same sequence of command strings, then end of input on both.  Scripts: every string of exactly N bytes
-/// over {letter, space, ';', newline} (N concrete per harness: a symbolic length makes the String copies
-/// intractable), plus scripts with the 2-byte character e-acute next to a symbolic ASCII byte.
+/// same sequence of command strings, then end of input on both.  Scripts: every string of exactly N bytes over
+/// {letter, space, ';', newline}, all but the last byte enumerated concretely inside the harness and the last byte
+/// symbolic (fully symbolic bytes make every UTF-8 decode/encode step a 4- to 5-way split on both transports:
+/// thousands of paths for 2 bytes, measured as >20 min).
+const ALPHA: [u8; 4] = [b'a', b' ', b';', b'\n'];
 macro_rules! transport {
-    ($name:ident, $n:expr) => {
+    ($name:ident, $n:expr, $unw:expr) => {
         #[kani::proof]
-        #[kani::unwind(7)]
+        #[kani::unwind($unw)]
         #[kani::stub(Stdin::read_byte, read_byte_from_queue)]
         fn $name() {
-            let buf: [u8; 4] = kani::any();
-            let mut k = 0;
-            while k < $n {
-                kani::assume(buf[k] == b'a' || buf[k] == b' ' || buf[k] == b';' || buf[k] == b'\n');
-                k += 1;
+            let last: u8 = kani::any();
+            kani::assume(last == b'a' || last == b' ' || last == b';' || last == b'\n');
+            let combos: usize = if $n == 1 { 1 } else if $n == 2 { 4 } else { 16 };
+            let mut c = 0;
+            while c < combos {
+                let mut buf = [0u8; 4];
+                if $n >= 2 {
+                    buf[0] = ALPHA[c % 4];
+                }
+                if $n >= 3 {
+                    buf[1] = ALPHA[(c / 4) % 4];
+                }
+                buf[$n - 1] = last;
+                unsafe {
+                    BYTES = buf;
+                    LEN = $n;
+                    POS = 0;
+                }
+                let text: &str = unsafe { core::str::from_utf8_unchecked(&*core::ptr::addr_of!(BYTES).cast::<[u8; 4]>()).get_unchecked(..$n) };
+                compare_transports(text);
+                c += 1;
             }
-            unsafe {
-                BYTES = buf;
-                LEN = $n;
-                POS = 0;
-            }
-            let text: &str = unsafe { core::str::from_utf8_unchecked(&*core::ptr::addr_of!(BYTES).cast::<[u8; 4]>()).get_unchecked(..$n) };
-            compare_transports(text);
         }
     };
 }
-transport!(c14_transport_len1, 1usize);
-transport!(c14_transport_len2, 2usize);
-transport!(c14_transport_len3, 3usize);
+transport!(c14_transport_len1, 1usize, 7);
+transport!(c14_transport_len2, 2usize, 7);
+transport!(c14_transport_len3, 3usize, 18);
 
 #[kani::proof]
 #[kani::unwind(7)]
